@@ -277,8 +277,8 @@ ReachSeq(h, xs, i, seen, fuel) ==
 
 Reach(h, v) == ReachV(h, v, {}, 64)
 
-RECURSIVE SetToSeq(_)
-SetToSeq(S) == IF S = {} THEN <<>> ELSE LET x == CHOOSE y \in S : \A z \in S : y <= z IN <<x>> \o SetToSeq(S \ {x})
+RECURSIVE AddrsToSeq(_)
+AddrsToSeq(S) == IF S = {} THEN <<>> ELSE LET x == CHOOSE y \in S : \A z \in S : y <= z IN <<x>> \o AddrsToSeq(S \ {x})
 
 RECURSIVE Remap(_, _)
 \* rewrite references according to mp (function old addr -> new addr)
@@ -292,7 +292,7 @@ RemapObj(o, mp) ==
 
 \* returns [h |-> heap', v |-> copy]
 DeepCopy(h, v) ==
-    LET addrs == SetToSeq(Reach(h, v))
+    LET addrs == AddrsToSeq(Reach(h, v))
         n     == Len(addrs)
         mp    == [a \in {addrs[i] : i \in 1..n} |-> Len(h) + (CHOOSE i \in 1..n : addrs[i] = a)]
         newObjs == [i \in 1..n |-> RemapObj(h[addrs[i]], mp)]
